@@ -200,7 +200,11 @@ def discharge_all(obligations, axioms, timeout_ms=10000, seed=0, jobs=8):
         st, info = r1.get(ob.oid, ("error", {"reason": "no result"}))
         results[ob.oid] = {"status": st, "time": info.get("time", 0.0), "backend": "z3", "parts": 1,
                            "reason": info.get("reason")}
-    left = [ob for ob in obligations if results[ob.oid]["status"] != "proved"]
+    left = [ob for ob in obligations if results[ob.oid]["status"] != "proved"
+            and not z3.is_false(ob.goal)]  # `false` goals (reachability of a forbidden exit) get one attempt
+    for ob in obligations:
+        if z3.is_false(ob.goal) and results[ob.oid]["status"] != "proved":
+            results[ob.oid]["failed_part"] = "false  (the path reaching this point is not refuted)"
     for rnd, ext in ((2, False), (3, True)):
         if not left:
             break
@@ -218,17 +222,18 @@ def discharge_all(obligations, axioms, timeout_ms=10000, seed=0, jobs=8):
                     if len(sub) != 1 or not z3.eq(sub[0][1], g):
                         changed = True
                     newparts.extend((hyps + h2, g2) for h2, g2 in sub)
-                if not changed:
+                if not changed and results[ob.oid]["status"] != "unknown":
                     continue  # nothing new to try: keep the round-2 verdict
-                parts = newparts
+                parts = newparts  # (unchanged parts that merely timed out get a second, longer try)
             active.append(ob)
             for k, (hyps, g) in enumerate(parts):
                 key = f"{ob.oid}#{rnd}.{k}"
                 meta[key] = (ob, k, hyps, g)
-                tasks.append((key, (lambda ob=ob, hyps=hyps, g=g: _check_inproc(list(ob.pc) + hyps, g, axioms,
-                                                                                timeout_ms, seed, True)),
-                              timeout_ms / 1000.0))
-        r = run_forked(tasks, jobs)
+                tmo = timeout_ms * (3 if ext else 1)
+                tasks.append((key, (lambda ob=ob, hyps=hyps, g=g, tmo=tmo: _check_inproc(list(ob.pc) + hyps, g, axioms,
+                                                                                         tmo, seed, True)),
+                              tmo / 1000.0))
+        r = run_forked(tasks, max(2, jobs // 2) if ext else jobs)
         per_ob = {}
         for key, (st, info) in r.items():
             ob, k, hyps, g = meta[key]
